@@ -357,35 +357,39 @@ def osSendStep (s : St) (h : HName) (hd : Handle) (v : Val) : St × P :=
   else if s.os ≠ .empty then (osSendFinish hd ((s.eraseHandle h).giveBack [v]), .fin { tag := .sentAlready, back := [v] })
   else (osSendFinish hd { ((s.eraseHandle h).push h.idx [v]) with os := .sent }, .fin { tag := .ok, sent := [v] })
 
+/-- start of a send form on a buffered family (everything but rendezvous / oneshot); `s1` = `s` after
+the values were taken from the caller -/
+def startSendBuf (fl : Flavour) (cfg : Cfg) (s s1 : St) (t : Nat) (f : Form) (h : HName) (hd : Handle)
+    (vs : List Val) : St × P :=
+  match firstHit (sendPrelude fl.fam hd.isAsync f) vs.isEmpty hd.closed (receiversGone fl s) with
+  | some .E => (s1, .fin { tag := .ok })
+  | some _ => failSend fl s1 f .closed [] vs
+  | none =>
+    if vs.isEmpty then (s1, .fin { tag := .ok })
+    else if cfg.granular ∧ !atomicSend fl.fam then (s1, .bsend t f h [] vs)
+    else
+      match sendStep fl cfg s1 t f h [] vs with
+      | some r => r
+      | none => (s1, .bsend t f h [] vs)
+
 def startSend (fl : Flavour) (cfg : Cfg) (s : St) (t : Nat) (f : Form) (h : HName) (vs : List Val) : St × P :=
   match findH s.hs h with
   | none => (s, .fin { tag := .noHandle })
   | some hd =>
     if hd.name.side ≠ .tx ∨ !f.isSend ∨ !supportsForm fl.fam hd.isAsync f then (s, .fin { tag := .unsupported })
     else
-      let s1 := s.create vs
       match fl.fam with
       | .os =>
         match vs with
-        | [v] => osSendStep s1 h hd v
+        | [v] => osSendStep (s.create vs) h hd v
         | _ => (s, .fin { tag := .unsupported })
       | .rv =>
         match vs with
         | [v] =>
-          if checksOwn .rv hd.isAsync f ∧ hd.closed then failSend fl s1 f .closed [] [v]
-          else rvSendStep fl s1 t f h v
+          if checksOwn .rv hd.isAsync f ∧ hd.closed then failSend fl (s.create vs) f .closed [] [v]
+          else rvSendStep fl (s.create vs) t f h v
         | _ => (s, .fin { tag := .unsupported })
-      | _ =>
-        match firstHit (sendPrelude fl.fam hd.isAsync f) vs.isEmpty hd.closed (receiversGone fl s) with
-        | some .E => (s1, .fin { tag := .ok })
-        | some _ => failSend fl s1 f .closed [] vs
-        | none =>
-          if vs.isEmpty then (s1, .fin { tag := .ok })
-          else if cfg.granular ∧ !atomicSend fl.fam then (s1, .bsend t f h [] vs)
-          else
-            match sendStep fl cfg s1 t f h [] vs with
-            | some r => r
-            | none => (s1, .bsend t f h [] vs)
+      | _ => startSendBuf fl cfg s (s.create vs) t f h hd vs
 
 /-! ## receive forms -/
 
